@@ -85,8 +85,36 @@ def mutants_of_line(line):
     return out
 
 
+def structural_mutants(src, i):
+    """second operator set: disable an early-return guard, drop an adapter line of an iterator chain, swap a tuple
+    field index, drop a `?`-less statement such as a flag assignment"""
+    out = []
+    line = src[i]
+    code = line.split("//")[0]
+    st = code.strip()
+    # `if cond {` whose block starts with `return Err(`  ->  `if false {`
+    if re.match(r"^\s*(\} else )?if .*\{\s*$", code) and i + 1 < len(src) and src[i + 1].strip().startswith("return Err("):
+        ind = re.match(r"^(\s*)", line).group(1)
+        prefix = "} else " if st.startswith("} else") else ""
+        out.append(("guard-disabled", ind + prefix + "if false {"))
+    # a lone adapter line in an iterator chain
+    if re.match(r"^\.(skip|rev|take|filter|skip_while|take_while|copied|cloned)\(.*\)\s*$", st):
+        out.append(("adapter-dropped", re.match(r"^(\s*)", line).group(1)))
+    # tuple field index
+    for m in re.finditer(r"\.([01])\b(?!\.\d)", code):
+        if re.search(r"\d\.[01]\b", code[max(0, m.start() - 2):m.end()]):
+            continue   # float literal
+        other = "1" if m.group(1) == "0" else "0"
+        out.append(("tuple-index .%s->.%s" % (m.group(1), other), line[:m.start(1)] + other + line[m.end(1):]))
+    # plain flag / slot assignment statement
+    if re.match(r"^[A-Za-z_][\w\[\]\.]*\s*=\s*(true|false|Some\(.*\));$", st):
+        out.append(("assignment-dropped", re.match(r"^(\s*)", line).group(1)))
+    return out
+
+
 def make_patches(outdir, only=None, limit=None, seed=1):
     allm = []
+    structural = "--structural" in sys.argv
     for f, (checks, regions) in TARGETS.items():
         if only and only not in f:
             continue
@@ -94,7 +122,8 @@ def make_patches(outdir, only=None, limit=None, seed=1):
         in_test = False
         for (lo, hi) in regions:
             for i in range(lo - 1, min(hi, len(src))):
-                for desc, new in mutants_of_line(src[i]):
+                cands = structural_mutants(src, i) if structural else mutants_of_line(src[i])
+                for desc, new in cands:
                     if new != src[i]:
                         allm.append((f, i, desc, new, checks))
     random.Random(seed).shuffle(allm)
